@@ -579,6 +579,17 @@ type vC14Corpus struct {
 		NHex string `json:"n_hex"`
 		E    string `json:"e"`
 	} `json:"rsa_usable"`
+	VerifyDS []struct {
+		Note       string `json:"note"`
+		Zone       string `json:"zone"`
+		Flags      uint16 `json:"flags"`
+		Alg        uint8  `json:"alg"`
+		Pk         string `json:"pk"`
+		DigestType uint8  `json:"digest_type"`
+		ExtraHex   string `json:"extra_hex"` // appended to the digest ToDS produces
+		FrontHex   string `json:"front_hex"` // put in front of it
+		Genuine    bool   `json:"genuine_follows"`
+	} `json:"verifyds"`
 	Suffix []struct {
 		Note string `json:"note"`
 		A    string `json:"a"`
@@ -649,6 +660,21 @@ func TestVerifC14Prim(t *testing.T) {
 		vC14EmitRSAUsable(tr, n, e, "rsa-usable-corpus")
 	}
 
+	for _, c := range corpus.VerifyDS {
+		k := &dns.DNSKEY{Hdr: dns.RR_Header{Name: c.Zone, Rrtype: dns.TypeDNSKEY, Class: dns.ClassINET, Ttl: 3600}, Flags: c.Flags, Protocol: 3, Algorithm: c.Alg, PublicKey: c.Pk}
+		d := k.ToDS(c.DigestType)
+		if d == nil {
+			t.Fatalf("corpus: bad verifyds entry %q", c.Note)
+		}
+		genuine := dns.Copy(d).(*dns.DS)
+		d.Digest = c.FrontHex + d.Digest + c.ExtraHex
+		set, dss := []dns.RR{d}, []*dns.DS{d}
+		if c.Genuine {
+			set, dss = append(set, genuine), append(dss, genuine)
+		}
+		vC14EmitVerifyDS(tr, c.Zone, 1, map[uint16][]*dns.DNSKEY{k.KeyTag(): {k}}, set, dss, c.Note)
+	}
+
 	// small RSA keys for the raw verifier (it has no size floor of its own)
 	small := []*vC14RSAKey{
 		vC14NewRSA(vC14Prime(r, 256), vC14Prime(r, 256)),
@@ -693,7 +719,7 @@ func TestVerifC14Prim(t *testing.T) {
 			}
 		case x < 84:
 			vC14CaseName(tr, r)
-		case x < 95:
+		case x < 92:
 			vC14CaseDSMatch(tr, r)
 		default:
 			vC14CaseVerifyDS(tr, r)
@@ -1319,7 +1345,9 @@ func vC14CaseDSMatch(tr *vC14Trace, r *rand.Rand) {
 		want = nil
 		libMatch, shape = false, "empty"
 	case 3:
-		want = append(append([]byte{}, want...), 0)
+		// one octet more, or many (a digest field wider than any hash: C14-11)
+		n := []int{1, 1, 1, 2, 16, 32, 33, 64, 65, 200}[r.Intn(10)]
+		want = append(append([]byte{}, want...), make([]byte, n)...)
 		libMatch, shape = false, "extended"
 	}
 	var got bool
@@ -1420,6 +1448,45 @@ func vC14CaseVerifyDS(tr *vC14Trace, r *rand.Rand) {
 			d.Digest = []string{"", "zz", "abc", d.Digest + "0"}[r.Intn(4)]
 		case 5:
 			d.Hdr.Name = vC14MixCase(r, d.Hdr.Name)
+		case 6, 7:
+			// the digest field at a length no hash produces (round-5 seeded change C14-11: a fixed-size
+			// decode buffer): the reference digest lengthened / repeated / cut, random octets of any
+			// length up to what a DS RDATA can carry in practice; half of the time the genuine DS of the
+			// same key follows, so that the set as a whole still matches
+			genuine := dns.Copy(d).(*dns.DS)
+			b, _ := hex.DecodeString(d.Digest)
+			extra := []int{1, 2, 15, 16, 17, 31, 32, 33, 63, 64, 65, 100, 200, 500}[r.Intn(14)]
+			switch r.Intn(6) {
+			case 0:
+				b = append(b, vC14RandBytes(r, extra)...)
+			case 1:
+				b = append(b, make([]byte, extra)...)
+			case 2:
+				b = append(append([]byte{}, b...), b...)
+			case 5: // octets in front: sorts before or after the genuine record as they fall
+				b = append(vC14RandBytes(r, extra), b...)
+				if r.Intn(2) == 0 {
+					b[0] = 0
+				}
+			case 3:
+				b = vC14RandBytes(r, []int{1, 19, 21, 47, 49, 63, 64, 65, 66, 96, 128, 129, 255, 256, 1000}[r.Intn(15)])
+			default:
+				if len(b) > 1 {
+					b = b[:1+r.Intn(len(b)-1)]
+				}
+			}
+			if len(b) > 0 && r.Intn(2) == 0 {
+				b[0] = 0 // the set is walked in the order of its digests: in front of the genuine record
+			}
+			d.Digest = hex.EncodeToString(b)
+			if r.Intn(2) == 0 {
+				d.Digest = strings.ToUpper(d.Digest)
+			}
+			if r.Intn(2) == 0 {
+				set = append(set, d)
+				dss = append(dss, d)
+				d = genuine
+			}
 		}
 		set = append(set, d)
 		dss = append(dss, d)
@@ -1431,12 +1498,38 @@ func vC14CaseVerifyDS(tr *vC14Trace, r *rand.Rand) {
 	if r.Intn(8) == 0 { // something that is not a DS
 		set = append(set, &dns.A{Hdr: dns.RR_Header{Name: zone, Rrtype: dns.TypeA, Class: dns.ClassINET}, A: []byte{192, 0, 2, 1}})
 	}
+	vC14EmitVerifyDS(tr, zone, len(keys), keyMap, set, dss, "")
+}
+
+// vC14EmitVerifyDS calls VerifyDS on one key map and DS set, takes the same decision with the
+// library's ToDS / KeyTag and emits the CaseVerifyDS term.
+func vC14EmitVerifyDS(tr *vC14Trace, zone string, nkeys int, keyMap map[uint16][]*dns.DNSKEY, set []dns.RR, dss []*dns.DS, note string) {
 	var gotU bool
 	var gotErr error
 	fail := ""
 	if p := vC14Guard(func() { gotU, gotErr = VerifyDS(keyMap, set) }); p != "" {
 		fail = "VerifyDS panicked: " + p
 	}
+	// which of the documented errors came back
+	code := 9
+	switch {
+	case fail != "":
+	case gotErr == nil:
+		code = 0
+	case gotErr == ErrMissingKSK:
+		code = 1
+	case gotErr == ErrMismatchingDS:
+		code = 2
+	case gotErr == ErrFailedToConvertKSK:
+		code = 3
+	}
+	// DSMatchedKeys on the same input: the keys the set vouches for (what the resolver anchors the
+	// child's DNSKEY RRset on)
+	var gotMatched map[uint16][]*dns.DNSKEY
+	if p := vC14Guard(func() { gotMatched = DSMatchedKeys(keyMap, set, nil) }); p != "" && fail == "" {
+		fail = "DSMatchedKeys panicked: " + p
+	}
+	refMatched := map[uint16][]*dns.DNSKEY{}
 	// the same decision taken with the library's ToDS and KeyTag
 	refOK, anySupported := false, false
 	for _, d := range dss {
@@ -1454,12 +1547,50 @@ func vC14CaseVerifyDS(tr *vC14Trace, r *rand.Rand) {
 			// a DNSKEY without key material is refused here and hashed by the library: deliberate, stricter
 			if raw, _ := base64.StdEncoding.DecodeString(k.PublicKey); ref != nil && strings.EqualFold(ref.Digest, d.Digest) && len(raw) > 0 {
 				refOK = true
+				dup := false
+				for _, x := range refMatched[d.KeyTag] {
+					if vC14Key(x) == vC14Key(k) {
+						dup = true
+					}
+				}
+				if !dup {
+					refMatched[d.KeyTag] = append(refMatched[d.KeyTag], k)
+				}
 			}
 		}
 	}
 	refU := !refOK && len(dss) > 0 && !anySupported
 	if fail == "" && (gotU != refU || (gotErr == nil) != refOK) {
 		fail = fmt.Sprintf("VerifyDS = (unsupportedOnly=%v, err=%v); with ToDS/KeyTag of the library the decision is (unsupportedOnly=%v, ok=%v)", gotU, gotErr, refU, refOK)
+	}
+	if fail == "" && code == 9 {
+		fail = fmt.Sprintf("VerifyDS returned an error that is none of ErrMissingKSK / ErrMismatchingDS / ErrFailedToConvertKSK: %v", gotErr)
+	}
+	kmCoq := func(m map[uint16][]*dns.DNSKEY) (string, string) {
+		var ts []int
+		for t, b := range m {
+			if len(b) > 0 {
+				ts = append(ts, int(t))
+			}
+		}
+		sort.Ints(ts)
+		var parts, flat []string
+		for _, t := range ts {
+			var ks []string
+			for _, k := range m[uint16(t)] {
+				ks = append(ks, vC14Key(k))
+			}
+			parts = append(parts, fmt.Sprintf("(%d%%N, [%s])", t, strings.Join(ks, "; ")))
+			sorted := append([]string{}, ks...)
+			sort.Strings(sorted)
+			flat = append(flat, fmt.Sprintf("%d:%s", t, strings.Join(sorted, ",")))
+		}
+		return "[" + strings.Join(parts, "; ") + "]", strings.Join(flat, "|")
+	}
+	gotMCoq, gotMFlat := kmCoq(gotMatched)
+	refMCoq, refMFlat := kmCoq(refMatched)
+	if fail == "" && gotMFlat != refMFlat {
+		fail = fmt.Sprintf("DSMatchedKeys vouches for %d bucket(s) [%s]; ToDS/KeyTag of the library vouch for [%s]", len(gotMatched), gotMFlat, refMFlat)
 	}
 	var tags []int
 	for t := range keyMap {
@@ -1498,9 +1629,21 @@ func vC14CaseVerifyDS(tr *vC14Trace, r *rand.Rand) {
 	} else if refU {
 		kind = "verifyds-unsupported-only"
 	}
-	tr.emit(kind, fmt.Sprintf("CaseVerifyDS [%s] [%s] [%s] (%s, %s) (%s, %s)", strings.Join(km, "; "), strings.Join(ds, "; "), strings.Join(orcs, "; "),
-		vC14Bool(gotU), vC14Bool(gotErr == nil), vC14Bool(refU), vC14Bool(refOK)), fail, len(dss) > 0,
-		map[string]any{"zone": zone, "keys": len(keys), "ds": len(dss), "unsupported_only": gotU, "err": fmt.Sprint(gotErr)})
+	wide := false
+	for _, d := range dss {
+		if len(d.Digest) > 128 {
+			wide = true
+		}
+	}
+	if wide {
+		kind += "-wide-digest"
+	}
+	if note != "" {
+		kind = "verifyds-corpus"
+	}
+	tr.emit(kind, fmt.Sprintf("CaseVerifyDS [%s] [%s] [%s] (%s, %s) (%s, %s) %d %s %s", strings.Join(km, "; "), strings.Join(ds, "; "), strings.Join(orcs, "; "),
+		vC14Bool(gotU), vC14Bool(gotErr == nil), vC14Bool(refU), vC14Bool(refOK), code, gotMCoq, refMCoq), fail, len(dss) > 0,
+		map[string]any{"zone": zone, "keys": nkeys, "ds": len(dss), "unsupported_only": gotU, "err": fmt.Sprint(gotErr), "matched_buckets": len(gotMatched), "note": note})
 }
 
 // vC14NameInZone reaches internal/dnsutil.NameInZone the way the anchored code does.
